@@ -135,7 +135,12 @@ def run(tier, seed):
         if k not in seen:
             seen.add(k)
             sim1.append(h)
-    hists = bfs + sim1
+    # a fixed core, always run (also under Miri): every dangling-key position on both graphs, through parse and build
+    core = [[{"op": "build", "s": 1, "g": g, "bad": b}, {"op": "edit", "s": 1}, {"op": "freeze", "s": 1}, {"op": "use_values"}] for g in (1, 2) for b in (1, 2, 3)]
+    core += [[{"op": "build", "s": 1, "g": g, "bad": 0}, {"op": "freeze", "s": 1}, {"op": "move", "s": 1}, {"op": "de", "s": 1, "mode": "borrowed"}, {"op": "move", "s": 1},
+              {"op": "new_cfg", "s": 1}, {"op": "ser", "s": 1, "v": 2}, {"op": "drop_cfg", "s": 1}, {"op": "move", "s": 1}, {"op": "debug", "s": 1},
+              {"op": "drop_schema", "s": 1}, {"op": "use_values"}] for g in (1, 2)]
+    hists = core + bfs + sim1
     work = common.workdir(f"c10-{os.getpid()}")
     allp = os.path.join(work, "all.ndjson")
     with open(allp, "w") as f:
@@ -160,7 +165,9 @@ def run(tier, seed):
     rng = random.Random(seed)
     n_miri = 128 if tier == "quick" else 1280
     ranked = sorted(range(len(hists)), key=lambda i: -score(hists[i]))
-    pick = ranked[: n_miri // 2] + rng.sample(ranked[n_miri // 2:], min(n_miri // 2, max(0, len(ranked) - n_miri // 2)))
+    pick = list(range(len(core))) + [i for i in ranked if i >= len(core)][: n_miri // 2]
+    rest = [i for i in ranked if i not in set(pick)]
+    pick += rng.sample(rest, min(n_miri // 2, len(rest)))
     nsh = common.NCPU
     shards = [pick[k::nsh] for k in range(nsh)]
     flagsets = ["-Zmiri-disable-isolation -Zmiri-ignore-leaks"]
